@@ -286,6 +286,7 @@ def main(argv):
     for ob in obligations:
         if ob["status"] != "discharged" and len(samples) < 14:
             samples.append(dict(obligation=ob["name"], status=ob["status"], detail=str(ob.get("detail"))[:300], fallback=ob.get("fallback")))
+    own_contract = {C.fn for C in (reg if cfg.get("contracts") else []) if not C.modular}
     coverage = dict(
         obligations=n_ob, discharged=n_dis,
         checker_cmd="cd /verif && ./check %s %s" % (pid, tier),
@@ -293,7 +294,10 @@ def main(argv):
         functions_under_contract=sorted(functions),
         functions_under_frame_obligations=sorted(frame_functions - functions),
         inlined_callees=sorted(inlined - functions), callees_via_contract=sorted(via),
-        assumed_callee_contracts=sorted(v for v in via if v in assumed_callees),
+        # a callee abstracted inside some contract AND verified by a contract of its own in this same check is modular
+        # verification proper; one without a contract of its own is an unchecked assumption
+        abstracted_callees_with_own_contract=sorted(v for v in via if v in assumed_callees and v in own_contract),
+        assumed_callee_contracts=sorted(v for v in via if v in assumed_callees and v not in own_contract),
         discharged_by=by_solver, solver_seconds=round(solver_seconds, 2),
         not_discharged=[dict(obligation=o["name"], status=o["status"], reason=str(o.get("detail"))[:200], fallback=o.get("fallback")) for o in obligations if o["status"] != "discharged" and o.get("name") not in kf_names][:60],
         samples=samples,
@@ -318,7 +322,7 @@ def main(argv):
                                    "BOUNDED fallback named there). " % (n_ob - n_dis, n_ob)) + coverage.get("explanation", "")
     ev = dict(property_id=pid, tier=tier, seed=seed, level=level, coverage=coverage,
               assumptions=P.ASSUMPTIONS + cfg.get("assumptions", []) + ["assumed (unverified) contract on callee %s: its result is an uninterpreted function of its arguments" % v
-                                                                          for v in sorted(via) if v in assumed_callees], wall_s=round(time.time() - t_start, 2),
+                                                                          for v in sorted(via) if v in assumed_callees and v not in own_contract], wall_s=round(time.time() - t_start, 2),
               violations=len(violations))
     with open(evidence_path, "w") as f:
         json.dump(ev, f, indent=1, default=str)
